@@ -510,7 +510,7 @@ def _case_vmdk_desc(case, ctx):
 
 def _gen_vmdk_embedded(tier):
     for pad in (0, 1, 100, 511, 512, 513, 20 * 512 - 200):
-        for fill in ("nul", "exact"):
+        for fill in ("nul", "exact", "exact-noeol", "one-short-noeol"):
             yield {"pad": pad, "fill": fill}
 
 
@@ -525,6 +525,16 @@ def _case_vmdk_embedded(case, ctx):
         # the descriptor fills its sector budget exactly (no NUL terminator inside the area)
         n = (len(base.encode()) + 511) // 512 * 512
         base = base + "#" * (n - len(base.encode()) - 1) + "\n"
+    tail_expected = None
+    if case["fill"] in ("exact-noeol", "one-short-noeol"):
+        # the last line is an unquoted value without a line terminator; the text ends exactly at (or one byte before) the end
+        # of the descriptor area
+        tail = "ddb.tail = 21"
+        short = 1 if case["fill"] == "one-short-noeol" else 0
+        n = (len(base.encode()) + len(tail) + 2 + 511) // 512 * 512
+        base = base + "#" * (n - short - len(base.encode()) - len(tail) - 1) + "\n" + tail
+        assert len(base.encode()) == n - short
+        tail_expected = "21"
     img = B.build_hosted([DATA, HOLE, DATA], [1, None, 0], 8, 512, 24, descriptor=base)
     v = VMDK(img.bytesio())
     ctx.nontrivial += 1
@@ -536,6 +546,9 @@ def _case_vmdk_embedded(case, ctx):
         _cmp(ctx, d, "attr[longKey]", desc.attr.get("longKey"), "v" * case["pad"])
         _cmp(ctx, d, "extents[0].filename", desc.extents[0].filename if desc.extents else None, "emb edded.vmdk")
         _cmp(ctx, d, "ddb[ddb.adapterType]", desc.ddb.get("ddb.adapterType"), "lsilogic")
+        if tail_expected is not None:
+            _cmp(ctx, d, "ddb[ddb.tail]", desc.ddb.get("ddb.tail"), tail_expected)
+        _cmp(ctx, d, "raw", (desc.raw or "").rstrip("\0"), base)
     _cmp(ctx, d, "size", v.size, 24 * 512)
     return d
 
@@ -563,6 +576,8 @@ def _case_vhd(case, ctx):
         v = VHD(B.build_fixed(case["fixed"], case["flen"]).sparse(log=False))
         _cmp(ctx, d, "size", v.size, case["fixed"] * 512)
         _cmp(ctx, d, "footer.current_size", v.disk.footer.current_size, case["fixed"] * 512)
+        _cmp(ctx, d, "footer.original_size", v.disk.footer.original_size,
+             struct.unpack(">Q", B.footer(case["fixed"] * 512, 2, B.FIXED_OFF)[40:48])[0])
         _cmp(ctx, d, "footer.disk_type", v.disk.footer.disk_type, 2)
         _cmp(ctx, d, "footer.cookie", v.disk.footer.cookie, b"conectix")
         _cmp(ctx, d, "footer.unique_id", v.disk.footer.unique_id, b"\x5a" * 16)
@@ -573,7 +588,9 @@ def _case_vhd(case, ctx):
     v = VHD(img.sparse(log=False))
     _cmp(ctx, d, "size", v.size, size)
     _cmp(ctx, d, "footer.current_size", v.disk.footer.current_size, size)
-    _cmp(ctx, d, "footer.original_size", v.disk.footer.original_size, size)
+    stored = struct.unpack(">QQ", B.footer(size, 3, 512)[40:56])  # (original size, current size) as written by the builder
+    _cmp(ctx, d, "footer.original_size", v.disk.footer.original_size, stored[0])
+    _cmp(ctx, d, "footer.features", v.disk.footer.features, struct.unpack(">I", B.footer(size, 3, 512)[8:12])[0])
     _cmp(ctx, d, "footer.disk_type", v.disk.footer.disk_type, 3)
     _cmp(ctx, d, "header.block_size", v.disk.header.block_size, spb * 512)
     _cmp(ctx, d, "header.max_table_entries", v.disk.header.max_table_entries, n + case["extra"])
